@@ -11,6 +11,27 @@ pub struct World {
     /// Absolute path of the world root (`$R`).
     pub root: PathBuf,
     pub root_text: String,
+    /// Root of the foreign tree (`$F`), on another file system if the environment has one.
+    pub foreign: Option<PathBuf>,
+}
+
+/// Where foreign trees are built: a directory of this process under `/tmp` (a disk in this sandbox,
+/// while worlds are on the tmpfs `/dev/shm`); if that cannot be made, beside the world (the same
+/// device: nothing that depends on device numbers manifests then, nothing else changes).
+fn foreign_root(root: &Path) -> PathBuf {
+    let tag = crate::rng::hash_bytes(0, root.to_string_lossy().as_bytes());
+    for top in ["/tmp", "/var/tmp"] {
+        let p = PathBuf::from(format!("{}/waxsim-f.{}.{:x}", top, std::process::id(), tag));
+        nuke(&p);
+        if fs::create_dir(&p).is_ok() {
+            let _ = fs::set_permissions(&p, fs::Permissions::from_mode(0o755));
+            return p;
+        }
+    }
+    let p = PathBuf::from(format!("{}.foreign", root.to_string_lossy()));
+    nuke(&p);
+    let _ = fs::create_dir_all(&p);
+    p
 }
 
 pub fn subst(text: &str, root_text: &str) -> String {
@@ -29,11 +50,16 @@ impl World {
         }
         fs::create_dir_all(root).map_err(|e| format!("mkdir {:?}: {}", root, e))?;
         let root_text = root.to_str().ok_or("non-UTF-8 scratch path")?.to_string();
+        let foreign = if tree.iter().any(|n| crate::scenario::is_foreign(&n.path)) { Some(foreign_root(root)) } else { None };
         let world = World {
             root: root.to_path_buf(),
             root_text,
+            foreign,
         };
         for node in tree {
+            if node.path == crate::scenario::F {
+                continue;
+            }
             let p = world.abs(&node.path);
             match &node.kind {
                 Kind::File => {
@@ -43,7 +69,7 @@ impl World {
                     fs::create_dir(&p).map_err(|e| format!("mkdir {:?}: {}", p, e))?;
                 },
                 Kind::Link { target } => {
-                    symlink(os(&subst(target, &world.root_text)), &p)
+                    symlink(os(&world.subst(target)), &p)
                         .map_err(|e| format!("symlink {:?}: {}", p, e))?;
                 },
             }
@@ -60,7 +86,19 @@ impl World {
         Ok(world)
     }
 
+    /// Link target text with the placeholders replaced.
+    pub fn subst(&self, text: &str) -> String {
+        let t = subst(text, &self.root_text);
+        match &self.foreign {
+            Some(f) => t.replace(crate::scenario::F, &f.to_string_lossy()),
+            None => t,
+        }
+    }
+
     pub fn abs(&self, rel: &str) -> PathBuf {
+        if let (true, Some(f)) = (crate::scenario::is_foreign(rel), &self.foreign) {
+            return if rel == crate::scenario::F { f.clone() } else { f.join(os(&rel[3..])) };
+        }
         if rel.is_empty() {
             self.root.clone()
         }
@@ -95,6 +133,7 @@ impl World {
         found.sort();
         let mut want: Vec<(String, char)> = tree
             .iter()
+            .filter(|n| !crate::scenario::is_foreign(&n.path))
             .map(|n| {
                 (
                     n.path.clone(),
@@ -145,7 +184,7 @@ impl World {
             },
             MutOp::Retarget(target) => {
                 nuke(&p);
-                symlink(os(&subst(target, &self.root_text)), &p)
+                symlink(os(&self.subst(target)), &p)
             },
         })();
         match res {
@@ -155,6 +194,9 @@ impl World {
     }
 
     pub fn destroy(&self) {
+        if let Some(f) = &self.foreign {
+            nuke(f);
+        }
         nuke(&self.root);
     }
 }
